@@ -114,10 +114,14 @@ impl Fiber {
     let mut allocator = context.gc();
 
     // Create stack and assign fun to first slot
-    let mut stack = UniqueVector::new(allocator.manage(
-      VecBuilder::new(&UNDEFINED_ARRAY[0..stack_count], stack_count),
-      context,
-    ));
+    let spill;
+    let undefined = if stack_count <= UNDEFINED_ARRAY.len() {
+      &UNDEFINED_ARRAY[0..stack_count]
+    } else {
+      spill = vec![VALUE_UNDEFINED; stack_count];
+      &spill[..]
+    };
+    let mut stack = UniqueVector::new(allocator.manage(VecBuilder::new(undefined, stack_count), context));
 
     stack[0] = val!(fun);
     allocator.push_root(stack);
@@ -585,10 +589,14 @@ impl Fiber {
     let mut allocator = context.gc();
 
     // Create the stack
-    let mut stack = UniqueVector::new(allocator.manage(
-      VecBuilder::new(&UNDEFINED_ARRAY[0..stack_count], stack_count),
-      context,
-    ));
+    let spill;
+    let undefined = if stack_count <= UNDEFINED_ARRAY.len() {
+      &UNDEFINED_ARRAY[0..stack_count]
+    } else {
+      spill = vec![VALUE_UNDEFINED; stack_count];
+      &spill[..]
+    };
+    let mut stack = UniqueVector::new(allocator.manage(VecBuilder::new(undefined, stack_count), context));
     allocator.push_root(stack);
 
     // Assign the frame to the start of the stack and write in the fun
